@@ -429,14 +429,22 @@ class ConfigLoader(BaseLoader):
         self.schema = schema
         self._private_schema = False
         self._including = []   # URLs of the resources being parsed
+        self._deepest = 0      # greatest %include depth of the current load
 
     def loadResource(self, resource):
         sm = self.createSchemaMatcher()
+        if not self._including:
+            self._deepest = 0
         try:
             self._parse_resource(sm, resource)
         except RecursionError:
             # every %include is a nested call of the parser; a chain of
-            # some two hundred resources exhausts the interpreter's stack
+            # some two hundred resources exhausts the interpreter's stack.
+            # In a load that hardly nests its includes the error has
+            # another origin (a datatype function recursing on its own
+            # account) and is the application's to see.
+            if self._deepest < 50:
+                raise
             raise ZConfig.ConfigurationError(
                 "%include directives are nested too deeply", resource.url)
         result = sm.finish(), CompositeHandler(sm.handlers, self.schema)
@@ -493,6 +501,7 @@ class ConfigLoader(BaseLoader):
     def _parse_resource(self, matcher, resource, defines=None):
         parser = ZConfig.cfgparser.ZConfigParser(resource, self, defines)
         self._including.append(resource.url)
+        self._deepest = max(self._deepest, len(self._including))
         try:
             parser.parse(matcher)
         finally:
